@@ -224,7 +224,10 @@ async fn handle_stream(
             };
         }
 
-        let tx = ts.get_mut(topic).unwrap();
+        // Hand the socket over on a clone of the topic's sender and release the global lock
+        // first: a topic whose registration queue is full must only hold up its own peers.
+        let mut tx = ts.get(topic).unwrap().clone();
+        drop(ts);
 
         match frame {
             Frame::RegisterPublisher(_) => {
